@@ -22,7 +22,7 @@ P = {
          ['the offset region itself (trigonometry, floating point), DoSquare/DoMiter/DoRound geometry'], '5 C06'),
  'C07': ('Proof that per-path state of DoGroupOffset (end type, delta) is re-derived from the group for every path, and of OffsetOpenPath (caps by end type at both ends, forward pass, normal reversal, backward pass).',
          ['stroke geometry, +-delta symmetry, OffsetOpenJoined'], '5 C07'),
- 'C08': ('Proof of GetLocation (exact side / inside classification), Rect64 predicates, location arithmetic, the Execute shortcuts (inside paths returned unchanged, outside paths dropped), and RectClip64::ExecuteInternal: corner insertion indexes only sides, corner loops terminate, indices in range; RectClip64::Add ring building.',
+ 'C08': ('Proof of GetLocation (exact side / inside classification), Rect64 predicates, location arithmetic, the Execute shortcuts (inside paths returned unchanged, outside paths dropped), and RectClip64::ExecuteInternal: corner insertion indexes only sides, corner loops terminate, indices in range; RectClip64::Add ring building; Path1ContainsPath2 vote.',
          ['what the location state machine outputs beyond safety, TidyEdges, intersection points, winding equality'], '5 C08'),
  'C09': ('Proof of the shared rectangle kernel incl. GetNextLocation (loop contracts), RectClipLines64::Execute shortcuts and per-polyline scratch reset, ExecuteInternal call trace (walk starts at segment 1); bounded GetPath (ring order, two-point pieces kept).',
          ['piece positions and lengths (intersection points)'], '5 C09'),
@@ -36,11 +36,11 @@ P = {
          ['order-independence of the sweep, all algebraic identities and transformations'], '5 C13'),
  'C14': ("Every assigns clause of every function under contract names only parameters and object members (CBMC checks every write against it, so a static scratch variable fails an assigns obligation); supporting static scan (nm on the freshly built objects plus a translation unit instantiating the header-only API and the C export layer, with and without USINGZ): every symbol in a writable section is std::__ioinit, declared const in the sources, or a string-literal pointer that is never written (known finding F12: the USINGZ export layer's callback globals).",
          ['interleavings (CBMC has no threads); nothing here explores schedules'], '5 C14'),
- 'C15': ('Proof of SetZ; USINGZ and plain IntersectEdges make the same building calls and every vertex created at a crossing reaches SetZ exactly once iff a callback is installed; the USINGZ/plain twins of the offsetting helpers emit bit-identical x,y; Point::Init copies z; every x/y contract re-proved with -DUSINGZ.',
-         ['equality of whole solutions across builds; DoSplitOp callback; ClipperD::ZCB / ClipperOffset::ZCB proxies'], '5 C15'),
+ 'C15': ('Proof of SetZ; USINGZ and plain IntersectEdges make the same building calls and every vertex created at a crossing reaches SetZ exactly once iff a callback is installed; the USINGZ/plain twins of the offsetting helpers emit bit-identical x,y; Point::Init copies z; ClipperOffset::ZCB / ClipperD::ZCB / the DoSplitOp callback never touch x,y and account for z; every x/y contract re-proved with -DUSINGZ.',
+         ['equality of whole solutions across builds; ClipperD::CheckCallback (std::bind)'], '5 C15'),
  'C16': ('Proof (call-trace contracts) that every PathsD overload forwards to the integer operation with the documented scale on paths, delta and arc tolerance and descales the result; Point<int64_t>::Init(double) rounds to a nearest integer; BuildPathsD/BuildTreeD pass invScale_; ScalePath scales x by scale_x and y by scale_y; bounded BuildPathD descaling.',
          ['rounding of x*scale itself (floating-point product), precision loss on descale, equality of complete results'], '5 C16'),
- 'C17': ('Proof (call-trace contracts) that every exported function forwards every parameter to the slot of the same meaning; argument validation; marshaling length arithmetic and in-bounds access.',
+ 'C17': ('Proof (call-trace contracts) that every exported function forwards every parameter to the slot of the same meaning; argument validation; marshaling length arithmetic and in-bounds access; CRectToRect / ConvertCPathToPathT.',
          ['equality of complete results with the C++ call beyond forwarding and marshaling'], '5 C17'),
  'C18': ('Proof for all 64-bit inputs whose differences do not overflow: TriSign, ProductsAreEqual, CrossProductSign, IsCollinear on both the __int128 and the portable branch (products as exact ghost products), Multiply carry chain; bounded PointInPolygon vs exact even-odd oracle.',
          ['accuracy of GetSegmentIntersectPt, GetClosestPointOnSegment, Area (floating-point multiply/divide is beyond every installed back end); the 64x64 multiplier itself (assumption A1/A2)'], '5 C18'),
